@@ -19,6 +19,8 @@ pub enum Case {
     E2E { log: TextLog, codec: Codec, bss: Vec<u64>, win: Option<WinSpec>, prepend: bool },
     /// in-process LineReader: lines found at block size `bs` tile the file and equal split-on-newline
     Lines { content: B, bs: u64, probes: Vec<u16> },
+    /// accounting-record file through the binary: stdout at every block size == stdout at 65536
+    Records { file: crate::fixedgen::FixedFile, codec: Codec, bss: Vec<u64> },
 }
 
 pub const REF_BS: u64 = 65536;
@@ -140,7 +142,7 @@ impl Property for C12 {
         "C12"
     }
     fn rule(&self) -> String {
-        "two generated case kinds. E2E: generated text log (plain or in a generated gz/bz2/xz/lz4/tar container), optional window, optional -u -d prefix, run at 65536 and at 4 sizes from {64,65,66,100,127,128,129,255,256,1000,4095..4097,8095..8097,0xFFFF,0x10001,0xFFFFFF,generated}: every stdout must equal the 65536 stdout and the model output. Lines (in-process LineReader, block sizes 1..len+2): sequential find_line results must tile the file and equal split-on-newline, random-access find_line(fo) on fresh and warmed readers must return the line containing fo; contents over {\\n,a,1,\\r,0x80} exhaustively enumerated up to length 7 in the extra phase. non-trivial: E2E = file larger than one block at some size and a message/line starts, ends or straddles a block boundary (+-1) there; Lines = >=2 lines and content longer than the block; distinct = hash(content, sizes).".into()
+        "three generated case kinds. Records: a synthesised accounting-record file of any of the 15 layouts (plain or in a container) printed at 65536 and at 2..4 block sizes in 64..5000 that are no multiple of the record size, all outputs identical. E2E: generated text log (plain or in a generated gz/bz2/xz/lz4/tar container), optional window, optional -u -d prefix, run at 65536 and at 4 sizes from {64,65,66,100,127,128,129,255,256,1000,4095..4097,8095..8097,0xFFFF,0x10001,0xFFFFFF,generated}: every stdout must equal the 65536 stdout and the model output. Lines (in-process LineReader, block sizes 1..len+2): sequential find_line results must tile the file and equal split-on-newline, random-access find_line(fo) on fresh and warmed readers must return the line containing fo; contents over {\\n,a,1,\\r,0x80} exhaustively enumerated up to length 7 in the extra phase. non-trivial: E2E = file larger than one block at some size and a message/line starts, ends or straddles a block boundary (+-1) there; Lines = >=2 lines and content longer than the block; distinct = hash(content, sizes).".into()
     }
     fn assumptions(&self) -> Vec<String> {
         vec!["files must pass the block-zero acceptance heuristic at every size used (finding F6 excluded by construction; probed as known finding)".into()]
@@ -171,7 +173,11 @@ impl Property for C12 {
             let bs = 1 + ((b as u64 * (c.len() as u64 + 2)) >> 16);
             Case::Lines { content: B(c), bs, probes }
         });
-        prop_oneof![3 => e2e, 2 => lines].boxed()
+        // record sizes are 32..640 bytes: block sizes that are no multiple of them make records and their time values
+        // straddle block boundaries
+        let records = (crate::fixedgen::fixed_file(tier.pick(40, 150), (0..crate::fixedgen::layouts().len()).collect()), any_codec_or_plain(), prop::collection::vec(prop_oneof![3 => 64u64..700, 1 => 700u64..5000], 2..5))
+            .prop_map(|(file, codec, bss)| Case::Records { file, codec, bss });
+        prop_oneof![3 => e2e, 2 => lines, 1 => records].boxed()
     }
     fn probes(&self, _tier: Tier) -> Vec<(String, Case)> {
         vec![
@@ -227,6 +233,43 @@ impl Property for C12 {
     }
     fn exec(&self, case: &Case, _ctx: &Ctx) -> Outcome {
         match case {
+            Case::Records { file, codec, bss } => {
+                let l = file.lay();
+                let sc = Scratch::new();
+                let f = match wrap(codec, &file.render(), &sc.dir, l.fname, l.fname) {
+                    Ok(f) => f,
+                    Err(e) => return Outcome::inconclusive(e),
+                };
+                let run = |bs: u64| {
+                    let mut args = osargs(["--color", "never", "-t=+00:00", "--blocksz"]);
+                    args.push(bs.to_string().into());
+                    args.push(f.clone().into());
+                    run_s4(RunSpec { args, tmpdir: Some(&sc.dir), ..Default::default() })
+                };
+                let reference = run(REF_BS);
+                if reference.timed_out {
+                    return Outcome::inconclusive("timeout".into());
+                }
+                if !reference.ok01() || reference.panicked() {
+                    return Outcome::fail("crash", format!("records bs={} status={:?} signal={:?} stderr={}", REF_BS, reference.status, reference.signal, esc_trunc(&reference.stderr, 400)));
+                }
+                for &bs in bss {
+                    let o = run(bs);
+                    if o.timed_out {
+                        return Outcome::inconclusive("timeout".into());
+                    }
+                    if !o.ok01() || o.panicked() {
+                        return Outcome::fail("crash", format!("records bs={} status={:?} signal={:?} stderr={}", bs, o.status, o.signal, esc_trunc(&o.stderr, 400)));
+                    }
+                    if o.stdout != reference.stdout || o.status != reference.status {
+                        return Outcome::fail("differs", format!("records layout={} codec={} bs={} (status {:?}) vs {} (status {:?}): {}", l.id, codec.kind(), bs, o.status, REF_BS, reference.status, diff_msg(&o.stdout, &reference.stdout)));
+                    }
+                }
+                let straddles = bss.iter().any(|&bs| (0..file.recs.len() as u64).any(|k| (k * l.size as u64) / bs != ((k + 1) * l.size as u64 - 1) / bs));
+                let mut o = Outcome::pass(straddles && !reference.stdout.is_empty(), hash_debug(case));
+                o.evals = 1 + bss.len() as u64;
+                o.class("kind:records").class(&format!("codec:{}", codec.kind()))
+            }
             Case::Lines { content, bs, probes } => {
                 let sc = Scratch::new();
                 let r = std::panic::catch_unwind(std::panic::AssertUnwindSafe(|| lines_check(&content.0, *bs, probes, &sc)));
